@@ -19,7 +19,10 @@
 (*   probe = 1 + k    k reads of ReadSeq applied                           *)
 (***************************************************************************)
 EXTENDS MCOrbitObject
-CONSTANT CoreLen
+CONSTANTS CoreLen,        \* core exploration: this many operations after the prefix
+          Prefix,         \* fixed sequence of <<op, arg>> every history starts with (<<>> = none)
+          CoreOps,        \* operations allowed in the core exploration after the prefix
+          ProbeWriters    \* operations taken as the probed transition
 VARIABLE probe
 pvars == <<vars, probe>>
 
@@ -33,12 +36,19 @@ IsOp(e) == LastRec.op = e[1] /\ LastRec.arg = e[2]
 
 ProbeInit == Init /\ probe = 0
 ProbeNext ==
-    \/ probe = 0 /\ Len(hist) < CoreLen /\ Next /\ probe' = 0
-    \/ probe = 0 /\ Next /\ LastRec.op \in WriterOps /\ probe' = 1
+    \/ probe = 0 /\ Len(hist) < Len(Prefix) /\ Next /\ IsOp(Prefix[Len(hist) + 1]) /\ probe' = 0
+    \/ probe = 0 /\ Len(hist) >= Len(Prefix) /\ Len(hist) < Len(Prefix) + CoreLen /\ Next /\ LastRec.op \in CoreOps /\ probe' = 0
+    \/ probe = 0 /\ Len(hist) >= Len(Prefix) /\ Next /\ LastRec.op \in ProbeWriters /\ probe' = 1
     \/ probe \in 1 .. Len(ReadSeq) /\ Next /\ IsOp(ReadSeq[probe]) /\ probe' = probe + 1
 ProbeSpec == ProbeInit /\ [][ProbeNext]_pvars
 
 CoreView  == <<L, I, dyn, cor, saved, left, alias>>
 ProbeView == IF probe = 0 THEN <<CoreView, 0, <<>>>> ELSE <<CoreView, probe, hist>>
 EmitProbe == (probe = Len(ReadSeq) + 1) => PrintT(ToJson(hist))
+
+AllOps == WriterOps \cup {e[1] : e \in {ReadSeq[i] : i \in DOMAIN ReadSeq}}
+NoPrefix == <<>>
+\* the save/load family behind a prefix that leaves the object re-loaded with a trajectory and stability information restored:
+\* two more writers, then a (re-)load, then every read
+LoadWriters == {"Load", "LoadInplace"}
 =============================================================================
